@@ -8,6 +8,8 @@
 #include "common.hh"
 #include <aiounicast_select.hh>
 #include <functional>
+#include <set>
+#include <map>
 #include <sys/wait.h>
 #include <sys/types.h>
 #include <signal.h>
@@ -21,7 +23,62 @@ struct ForkResult { std::vector<std::string> text; std::vector<int> status; bool
 
 typedef std::function<void(size_t, aiounicast *, CachinKursawePetzoldShoupRBC *, std::ostream &)> party_fn;
 
-inline ForkResult fork_parties(size_t n, size_t t, uint64_t seed, time_t aio_timeout, unsigned wall_limit_s, party_fn f) {
+// ---- harness-scripted deviations of one party (idea taken from agent I1's c15_net.hh TamperUnicast; own copy) ----------------
+// The deviating party runs the library's honest code; its two channels are wrapped:
+//  * unicast: the first message of the tampered pair (the share alpha) to the recipients in `wrong` is sent as alpha+1 mod q,
+//    the recipients in `drop` get nothing of that pair;
+//  * broadcast: every own r-send (message (ID, j, s, r-send, payload) on the channel under the RBC) is shown to `decide`, which
+//    may replace the payload (return 1; the same replacement goes to every recipient, so the broadcast stays consistent) or
+//    suppress the broadcast and everything after it (return 2: the party falls silent on the broadcast channel).
+struct Deviation {
+	std::set<size_t> wrong, drop;     // unicast recipients
+	size_t pair_base = 0;             // index (per recipient) of the first message of the tampered pair
+	int answer = 0;                   // complaint answer: 0 correct, 1 incorrect (revealed share + 1), 2 none (silent from there on)
+	int opening = 0;                  // opening of the own share: 0 correct, 1 mismatching (+1), 2 none (silent from there on)
+	bool active() const { return !wrong.empty() || !drop.empty() || answer || opening; }
+	std::string str() const { std::string r = "wrong={"; for (size_t w : wrong) r += std::to_string(w) + " "; r += "} drop={"; for (size_t w : drop) r += std::to_string(w) + " ";
+		return r + "} answer=" + std::to_string(answer) + " opening=" + std::to_string(opening); }
+};
+class TamperUnicast : public aiounicast_select {
+public:
+	Deviation dv; mpz_t q; std::vector<size_t> sent;
+	TamperUnicast(const Deviation &d, mpz_srcptr q_in, size_t n_in, size_t j_in, const std::vector<int> &fi, const std::vector<int> &fo, const std::vector<std::string> &key, size_t sched, time_t T)
+		: aiounicast_select(n_in, j_in, fi, fo, key, sched, T), dv(d), sent(n_in, 0) { mpz_init_set(q, q_in); }
+	using aiounicast_select::Send;
+	bool Send(mpz_srcptr m, const size_t i_in, time_t timeout) override {
+		size_t k = sent[i_in]++;
+		if (dv.drop.count(i_in) && (k == dv.pair_base || k == dv.pair_base + 1)) return true;
+		if (dv.wrong.count(i_in) && k == dv.pair_base) {
+			mpz_t m2; mpz_init(m2); mpz_add_ui(m2, m, 1L); mpz_mod(m2, m2, q);
+			bool r = aiounicast_select::Send(m2, i_in, timeout); mpz_clear(m2); return r;
+		}
+		return aiounicast_select::Send(m, i_in, timeout);
+	}
+};
+class TamperBroadcast : public aiounicast_select {
+public:
+	CachinKursawePetzoldShoupRBC **rbcp; bool silent = false;
+	std::function<int(mpz_srcptr, mpz_ptr)> decide;     // payload -> 0 pass / 1 replaced / 2 silent from here on
+	TamperBroadcast(CachinKursawePetzoldShoupRBC **r, size_t n_in, size_t j_in, const std::vector<int> &fi, const std::vector<int> &fo, const std::vector<std::string> &key, size_t sched, time_t T)
+		: aiounicast_select(n_in, j_in, fi, fo, key, sched, T), rbcp(r) {}
+	using aiounicast_select::Send;
+	bool Send(const std::vector<mpz_srcptr> &m, const size_t i_in, time_t timeout) override {
+		if (*rbcp && m.size() == 5 && mpz_cmp(m[3], (*rbcp)->r_send) == 0 && mpz_cmp(m[1], (*rbcp)->whoami) == 0) {
+			if (silent) return true;
+			if (decide) {
+				mpz_t rep; mpz_init(rep); int d = decide(m[4], rep);
+				if (d == 2) { silent = true; mpz_clear(rep); return true; }
+				if (d == 1) { std::vector<mpz_srcptr> m2(m); m2[4] = rep; bool r = aiounicast_select::Send(m2, i_in, timeout); mpz_clear(rep); return r; }
+				mpz_clear(rep);
+			}
+		}
+		return aiounicast_select::Send(m, i_in, timeout);
+	}
+};
+inline TamperBroadcast *&tamper_broadcast() { static TamperBroadcast *p = 0; return p; }   // the wrapped broadcast channel of this (child) process
+
+inline ForkResult fork_parties(size_t n, size_t t, uint64_t seed, time_t aio_timeout, unsigned wall_limit_s, party_fn f,
+                               const std::map<size_t, Deviation> *devs = 0, mpz_srcptr q_dev = 0) {
 	ForkResult R; R.text.assign(n, ""); R.status.assign(n, -1);
 	std::vector<std::vector<std::array<int, 2> > > up(n, std::vector<std::array<int, 2> >(n)), bp(n, std::vector<std::array<int, 2> >(n));
 	std::vector<std::array<int, 2> > rp(n);
@@ -51,9 +108,18 @@ inline ForkResult fork_parties(size_t n, size_t t, uint64_t seed, time_t aio_tim
 					bin.push_back(bp[i][w][0]); bout.push_back(bp[w][i][1]); bkey.push_back(key.str());
 				}
 				verif::reseed_lib(seed * 1000003ULL + 7919ULL * (w + 1));
-				aiounicast_select *aiou = new aiounicast_select(n, w, uin, uout, ukey, aiounicast::aio_scheduler_roundrobin, aio_timeout);
-				aiounicast_select *aiou2 = new aiounicast_select(n, w, bin, bout, bkey, aiounicast::aio_scheduler_roundrobin, aio_timeout);
-				CachinKursawePetzoldShoupRBC *rbc = new CachinKursawePetzoldShoupRBC(n, t, w, aiou2, aiounicast::aio_scheduler_roundrobin, aio_timeout);
+				aiounicast_select *aiou, *aiou2; CachinKursawePetzoldShoupRBC *rbc = 0;
+				static CachinKursawePetzoldShoupRBC *rbc_slot = 0;
+				if (devs && devs->count(w) && devs->at(w).active()) {
+					aiou = new TamperUnicast(devs->at(w), q_dev, n, w, uin, uout, ukey, aiounicast::aio_scheduler_roundrobin, aio_timeout);
+					TamperBroadcast *tb = new TamperBroadcast(&rbc_slot, n, w, bin, bout, bkey, aiounicast::aio_scheduler_roundrobin, aio_timeout);
+					tamper_broadcast() = tb; aiou2 = tb;
+				} else {
+					aiou = new aiounicast_select(n, w, uin, uout, ukey, aiounicast::aio_scheduler_roundrobin, aio_timeout);
+					aiou2 = new aiounicast_select(n, w, bin, bout, bkey, aiounicast::aio_scheduler_roundrobin, aio_timeout);
+				}
+				rbc = new CachinKursawePetzoldShoupRBC(n, t, w, aiou2, aiounicast::aio_scheduler_roundrobin, aio_timeout);
+				rbc_slot = rbc;
 				rbc->setID("verif");
 				std::ostringstream res;
 				f(w, aiou, rbc, res);
